@@ -217,3 +217,35 @@ func dominatesInstr(a, b ssa.Instruction) bool {
 	}
 	return ba.Dominates(bb)
 }
+
+// normBool strips the equivalent spellings of a boolean test: !x, x == false, x != true, x == true, x != false.
+// It returns the underlying value and whether the test is negated.
+func normBool(cond ssa.Value) (ssa.Value, bool) {
+	neg := false
+	for i := 0; i < 4; i++ {
+		switch x := cond.(type) {
+		case *ssa.UnOp:
+			if x.Op == token.NOT {
+				cond, neg = x.X, !neg
+				continue
+			}
+		case *ssa.BinOp:
+			if x.Op == token.EQL || x.Op == token.NEQ {
+				for _, pair := range [][2]ssa.Value{{x.X, x.Y}, {x.Y, x.X}} {
+					if k, ok := pair[1].(*ssa.Const); ok && k.Value != nil && k.Value.Kind() == constant.Bool {
+						b := constant.BoolVal(k.Value)
+						// x == true / x != false keep the sense; x == false / x != true flip it
+						if (x.Op == token.EQL) != b {
+							neg = !neg
+						}
+						cond = pair[0]
+						goto next
+					}
+				}
+			}
+		}
+		return cond, neg
+	next:
+	}
+	return cond, neg
+}
